@@ -147,6 +147,10 @@ pub struct ReaderPlan {
     pub eintr: Vec<(u64, u32)>,
     /// hard error: reads starting below `at` deliver at most up to `at`; the read at `at` fails.
     pub error: Option<(u64, ErrKind, bool)>, // (at, kind, sticky)
+    /// the reader implements `read_vectored` natively: one call fills several buffers and a short
+    /// read may stop anywhere inside any of them (pipes, sockets, `BufReader` at the end of its
+    /// buffer). Off: std's default, which only ever fills the first non-empty buffer.
+    pub vectored: bool,
 }
 
 impl ReaderPlan {
@@ -170,6 +174,7 @@ pub struct ReadStats {
     pub mem_excess: i64,
     pub mem_excess_at: u64,
     pub error_fired_at_call: u64,
+    pub vectored_calls: u64,
 }
 
 pub struct SimReader<'a> {
@@ -242,8 +247,10 @@ impl<'a> SimReader<'a> {
     }
 }
 
-impl<'a> Read for SimReader<'a> {
-    fn read(&mut self, buf: &mut [u8]) -> io::Result<usize> {
+impl<'a> SimReader<'a> {
+    /// Decide the outcome of one call asking for `req` bytes: `Ok((from, n))` = deliver
+    /// `data[from..from + n]`. Advances the stream.
+    fn step(&mut self, req: usize) -> io::Result<(usize, usize)> {
         self.stats.calls += 1;
         if self.stats.calls > self.call_cap {
             // no-progress loop guard: reported by the oracle as a hang
@@ -258,11 +265,10 @@ impl<'a> Read for SimReader<'a> {
                 self.stats.mem_excess_at = self.stats.delivered;
             }
         }
-        let req = buf.len();
         self.stats.max_request = self.stats.max_request.max(req as u64);
         if req == 0 {
             self.record(0, 0);
-            return Ok(0);
+            return Ok((self.pos, 0));
         }
         // transient interruptions
         while self.eintr_idx < self.plan.eintr.len()
@@ -299,7 +305,7 @@ impl<'a> Read for SimReader<'a> {
         if avail == 0 {
             self.stats.zero_eof += 1;
             self.record(req, 0);
-            return Ok(0);
+            return Ok((self.pos, 0));
         }
         let mut n = req.min(avail);
         if !self.plan.sizes.is_empty() {
@@ -313,10 +319,39 @@ impl<'a> Read for SimReader<'a> {
                 self.stats.split_primitive += 1;
             }
         }
-        buf[..n].copy_from_slice(&self.data[self.pos..self.pos + n]);
+        let from = self.pos;
         self.pos += n;
         self.stats.delivered += n as u64;
         self.record(req, n as i64);
+        Ok((from, n))
+    }
+}
+
+impl<'a> Read for SimReader<'a> {
+    fn read(&mut self, buf: &mut [u8]) -> io::Result<usize> {
+        let (from, n) = self.step(buf.len())?;
+        buf[..n].copy_from_slice(&self.data[from..from + n]);
+        Ok(n)
+    }
+    fn read_vectored(&mut self, bufs: &mut [io::IoSliceMut<'_>]) -> io::Result<usize> {
+        if !self.plan.vectored {
+            // std's default
+            let buf = bufs.iter_mut().find(|b| !b.is_empty()).map_or(&mut [][..], |b| &mut **b);
+            return self.read(buf);
+        }
+        self.stats.vectored_calls += 1;
+        let req: usize = bufs.iter().map(|b| b.len()).sum();
+        let (mut from, n) = self.step(req)?;
+        let mut left = n;
+        for b in bufs.iter_mut() {
+            if left == 0 {
+                break;
+            }
+            let k = left.min(b.len());
+            b[..k].copy_from_slice(&self.data[from..from + k]);
+            from += k;
+            left -= k;
+        }
         Ok(n)
     }
 }
@@ -396,5 +431,6 @@ pub fn gen_reader_plan(r: &mut Rng, n: u64, boundaries: &[usize], hard: bool) ->
         let at = place(r).min(n - 1);
         p.error = Some((at, *r.pick(ERR_KINDS), r.chance(1, 2)));
     }
+    p.vectored = r.chance(1, 3);
     p
 }
